@@ -216,5 +216,7 @@ structure Ext where
   /-- `config.Server.Schedule` and `config.Server.Continuous` -/
   schedule : List GoJob := []
   continuous : List GoJob := []
+  /-- `config.Server.MaxConnections` -/
+  maxConnections : Int := 0
 
 end Dtail.Go
